@@ -12,6 +12,10 @@ def parseFilt? (s : String) : Option (Option (Nat × Int)) :=
   | [a, v] => do pure (some ((← a.toNat?), (← v.toInt?)))
   | _ => none
 
+/-- column subset of a query: `*` = every column, `-` = primary key only, else `a+b+…` -/
+def parseCols? (s : String) : Option (Option (List Nat)) :=
+  if s == "*" then some none else if s == "-" then some (some []) else parseAttrs? s
+
 def parseBool? (s : String) : Option Bool :=
   if s == "0" then some false else if s == "1" then some true else none
 
@@ -22,7 +26,7 @@ def parseOp? (t : String) : Option Op :=
   | ["x", k, l] => do pure (.expire (← k.toNat?) (← parseAttrs? l))
   | ["X"] => some .expireAll
   | ["f", k, l] => do pure (.refresh (← k.toNat?) (← parseAttrs? l))
-  | ["q", p, f] => do pure (.query (← parseBool? p) (← parseFilt? f))
+  | ["q", p, f, cl] => do pure (.query (← parseBool? p) (← parseFilt? f) (← parseCols? cl))
   | ["F"] => some .flush
   | ["c"] => some .commit
   | ["b"] => some .rollback
